@@ -1321,7 +1321,7 @@ fn family_small(ctx: &mut Ctx) {
                     let Some((_, log)) = guarded(ctx, &format!("C09/{comp}/sched"), || json!({"text": hexs(&text)}), || runner(&sc, &Consume::Read(2), None)) else { continue };
                     let ncalls = log.lock().unwrap().calls;
                     for k in 0..ncalls {
-                        for (kind, sticky) in [(FaultKind::Other, false), (FaultKind::Other, true), (FaultKind::Interrupted, false), (FaultKind::UnexpectedEof, false)] {
+                        for (kind, sticky) in [(FaultKind::Other, false), (FaultKind::Other, true), (FaultKind::Interrupted, false), (FaultKind::UnexpectedEof, false), (FaultKind::UnexpectedEof, true)] {
                             let f = Fault { at_call: k, sticky, kind };
                             let replay = || json!({"family": "S1", "component": comp, "text": hexs(&text), "sched": sched_json(&sc), "fault_call": k, "sticky": sticky, "kind": kind_name(kind)});
                             let r = guarded(ctx, &fault_prefix(comp, kind), replay, || runner(&sc, &Consume::Read(2), Some(f)));
@@ -1532,7 +1532,7 @@ fn family_small(ctx: &mut Ctx) {
                             let Some((_, log)) = guarded(ctx, "C09/normalized-reader/sched", || json!({"s": hexs(&s)}), || run_normalized(&s, lb, &sc, &Consume::Read(100), None)) else { continue };
                             let ncalls = log.lock().unwrap().calls;
                             for k in 0..ncalls {
-                                for (kind, sticky) in [(FaultKind::Other, false), (FaultKind::Other, true), (FaultKind::Interrupted, false), (FaultKind::UnexpectedEof, false)] {
+                                for (kind, sticky) in [(FaultKind::Other, false), (FaultKind::Other, true), (FaultKind::Interrupted, false), (FaultKind::UnexpectedEof, false), (FaultKind::UnexpectedEof, true)] {
                                     let f = Fault { at_call: k, sticky, kind };
                                     let replay = || json!({"family": "S3e", "s": hexs(&s), "lb": lb_name(lb), "sched": sched_json(&sc), "fault_call": k, "sticky": sticky, "kind": kind_name(kind)});
                                     let r = guarded(ctx, &fault_prefix("normalized-reader", kind), replay, || run_normalized(&s, lb, &sc, &Consume::Read(100), Some(f)));
@@ -1579,7 +1579,7 @@ fn family_small(ctx: &mut Ctx) {
             let splits: Vec<usize> = (1..len).filter(|i| i % 3 == 0).collect();
             let Some((_, ncalls, _)) = guarded(ctx, "C09/line-writer/sched", || json!({"len": len}), || run_line_writer(&data, &splits, false, lb, &Sched::Fixed(2), None)) else { continue };
             for k in 0..ncalls {
-                for (kind, sticky) in [(FaultKind::Other, false), (FaultKind::Other, true), (FaultKind::Interrupted, false), (FaultKind::UnexpectedEof, false)] {
+                for (kind, sticky) in [(FaultKind::Other, false), (FaultKind::Other, true), (FaultKind::Interrupted, false), (FaultKind::UnexpectedEof, false), (FaultKind::UnexpectedEof, true)] {
                     let f = Fault { at_call: k, sticky, kind };
                     let replay = || json!({"family": "S4", "len": len, "lb": lb_name(lb), "fault_call": k, "sticky": sticky, "kind": kind_name(kind)});
                     let r = guarded(ctx, &fault_prefix("line-writer", kind), replay, || run_line_writer(&data, &splits, false, lb, &Sched::Fixed(2), Some(f)));
@@ -1935,7 +1935,7 @@ fn family_dearmor(ctx: &mut Ctx) {
             let ncalls = log.lock().unwrap().calls;
             ctx.cover(&("Df", name, sc.name()));
             for k in 0..ncalls {
-                for (kind, sticky) in [(FaultKind::Other, false), (FaultKind::Other, true), (FaultKind::Interrupted, false), (FaultKind::UnexpectedEof, false)] {
+                for (kind, sticky) in [(FaultKind::Other, false), (FaultKind::Other, true), (FaultKind::Interrupted, false), (FaultKind::UnexpectedEof, false), (FaultKind::UnexpectedEof, true)] {
                     let f = Fault { at_call: k, sticky, kind };
                     let replay = || json!({"family": "D", "armor": hexs(&text), "sched": sched_json(&sc), "fault_call": k, "sticky": sticky, "kind": kind_name(kind)});
                     let r = guarded(ctx, &fault_prefix("dearmor", kind), replay, || run_dearmor(&text, &sc, &Consume::Read(3), Some(f)));
@@ -2139,7 +2139,7 @@ fn diff_and_fault(
         let pts = fault_points(ncalls, &offsets, boundaries, &mut rng, fault_budget.0, fault_budget.1);
         ctx.tally(&format!("fault.points.{comp}"), pts.len() as u64);
         for k in pts {
-            for (kind, sticky) in [(FaultKind::Other, false), (FaultKind::Other, true), (FaultKind::Interrupted, false), (FaultKind::UnexpectedEof, false)] {
+            for (kind, sticky) in [(FaultKind::Other, false), (FaultKind::Other, true), (FaultKind::Interrupted, false), (FaultKind::UnexpectedEof, false), (FaultKind::UnexpectedEof, true)] {
                 let f = Fault { at_call: k, sticky, kind };
                 let replay = || {
                     let mut v = replay_base.clone();
@@ -3415,7 +3415,7 @@ fn family_messages(ctx: &mut Ctx, env: &MsgEnv) {
                 let pts = fault_points(ncalls, &offsets, &src_bounds, &mut rng, budget.0, budget.1);
                 ctx.tally("fault.points.builder-source", pts.len() as u64);
                 for k in pts {
-                    for (kind, sticky) in [(FaultKind::Other, false), (FaultKind::Other, true), (FaultKind::Interrupted, false), (FaultKind::UnexpectedEof, false)] {
+                    for (kind, sticky) in [(FaultKind::Other, false), (FaultKind::Other, true), (FaultKind::Interrupted, false), (FaultKind::UnexpectedEof, false), (FaultKind::UnexpectedEof, true)] {
                         let f = Fault { at_call: k, sticky, kind };
                         let replay = || {
                             let mut v = base.clone();
@@ -3452,7 +3452,7 @@ fn family_messages(ctx: &mut Ctx, env: &MsgEnv) {
                     pts.dedup();
                     ctx.tally(&format!("fault.points.{comp}"), pts.len() as u64);
                     for k in pts {
-                        for (kind, sticky) in [(FaultKind::Other, false), (FaultKind::Other, true), (FaultKind::Interrupted, false), (FaultKind::UnexpectedEof, false)] {
+                        for (kind, sticky) in [(FaultKind::Other, false), (FaultKind::Other, true), (FaultKind::Interrupted, false), (FaultKind::UnexpectedEof, false), (FaultKind::UnexpectedEof, true)] {
                             let f = Fault { at_call: k, sticky, kind };
                             let replay = || {
                                 let mut v = base.clone();
@@ -3483,7 +3483,13 @@ fn family_messages(ctx: &mut Ctx, env: &MsgEnv) {
                 let bounds = if armored { vec![] } else { stream_boundaries(w) };
                 let fmix = Mix::new(&[Op::Fill(0), Op::Read(5)], 0, Fin::ToEnd);
                 let (c_end, c_read, c_buf) = (Consume::ToEnd, Consume::Read(100), Consume::Buf(5));
-                for (sc, c) in [(Sched::All, AnyCons::S(&c_end)), (Sched::Fixed(300), AnyCons::S(&c_read)), (Sched::Fixed(4096), AnyCons::S(&c_buf)), (Sched::Fixed(2000), AnyCons::M(&fmix))] {
+                // one schedule whose calls start exactly at every packet / partial-chunk edge of the stream, so that a
+                // fault can fall precisely where the next header or chunk length is expected
+                let mut fsched = vec![(Sched::All, AnyCons::S(&c_end)), (Sched::Fixed(300), AnyCons::S(&c_read)), (Sched::Fixed(4096), AnyCons::S(&c_buf)), (Sched::Fixed(2000), AnyCons::M(&fmix))];
+                if !bounds.is_empty() {
+                    fsched.push((Sched::SplitAt(bounds.clone()), AnyCons::S(&c_end)));
+                }
+                for (sc, c) in fsched {
                     let Some((q0, qlog)) = guarded(ctx, &format!("C09/{comp}/sched"), || base.clone(), || run_read_any(env, cfg, w, armored, &sc, c, None)) else { continue };
                     if q0.err || q0.data != **data {
                         // (the R family reports this as a schedule violation with full detail)
@@ -3500,7 +3506,7 @@ fn family_messages(ctx: &mut Ctx, env: &MsgEnv) {
                         ctx.sample(json!({"family": "F", "cfg": cfg.name, "payload_bytes": n, "armored": armored, "source": sc.name(), "consumer": c.name(), "clean_source_calls": ncalls, "fault_calls": pts, "kinds": ["other/once", "other/sticky", "interrupted/once"]}));
                     }
                     for k in pts {
-                        for (kind, sticky) in [(FaultKind::Other, false), (FaultKind::Other, true), (FaultKind::Interrupted, false), (FaultKind::UnexpectedEof, false)] {
+                        for (kind, sticky) in [(FaultKind::Other, false), (FaultKind::Other, true), (FaultKind::Interrupted, false), (FaultKind::UnexpectedEof, false), (FaultKind::UnexpectedEof, true)] {
                             let f = Fault { at_call: k, sticky, kind };
                             let replay = || json!({"family": "F", "cfg": cfg.name, "armored": armored, "wire": hexs(w), "source": sched_json(&sc), "consumer": c.name(), "source_fault": {"call": k, "sticky": sticky, "kind": kind_name(kind), "clean_calls": ncalls}});
                             let r = guarded(ctx, &fault_prefix(comp, kind), replay, || run_read_any(env, cfg, w, armored, &sc, c, Some(f)));
@@ -3614,7 +3620,7 @@ fn family_messages(ctx: &mut Ctx, env: &MsgEnv) {
                 judge(ctx, "armor-write", &w0, &got, &|| format!("armor::write of certificate {i} (crc={crc}), sink accepts {}", sk.name()), &replay);
             }
             for k in 0..l0.calls {
-                for (kind, sticky) in [(FaultKind::Other, false), (FaultKind::Other, true), (FaultKind::Interrupted, false), (FaultKind::UnexpectedEof, false)] {
+                for (kind, sticky) in [(FaultKind::Other, false), (FaultKind::Other, true), (FaultKind::Interrupted, false), (FaultKind::UnexpectedEof, false), (FaultKind::UnexpectedEof, true)] {
                     let f = Fault { at_call: k, sticky, kind };
                     let replay = || json!({"family": "F3", "key": i, "crc": crc, "sink_fault": {"call": k, "sticky": sticky, "kind": kind_name(kind), "clean_calls": l0.calls}});
                     let r = guarded(ctx, &fault_prefix("armor-write", kind), replay, || run(&Sched::All, Some(f)));
